@@ -170,7 +170,7 @@ End WithHash.
 (* ================= refutations: the model, being faithful, exhibits the defects ================= *)
 Definition hid (v : value) : N := match v with VInt z => Z.to_N z | VStr (b :: _) => b | _ => 0 end%N.
 
-Ltac witness := repeat eexists; repeat (split; [vm_compute; reflexivity|]); vm_compute; first [reflexivity | discriminate].
+Ltac wit_body := repeat (split; [vm_compute; reflexivity|]); vm_compute; first [reflexivity | discriminate | congruence | (let HH := fresh in intro HH; inversion HH)].
 
 Definition run_ops (os : list op) : res table := run hid empty_table os.
 Definition ints (n : nat) : list op := map (fun i => OSet (VInt (Z.of_nat i)) (VInt (Z.of_nat (100 + i)))) (seq 1 n).
@@ -182,7 +182,7 @@ Theorem array_clear_refuted :
     mget hid t (VInt 8) = Ok (VInt 108) /\
     treset hid t (VInt 8) VNil = Ok (t', b) /\
     mnext hid t' (VInt 8) = Ok (VNil, VNil, false).
-Proof. witness. Qed.
+Proof. eexists. eexists. eexists. wit_body. Qed.
 
 (* (2) assigning to an EXISTING key through Table.Set re-hashes a full hash part: the slot order changes *)
 Definition strs4 : list op :=
@@ -191,29 +191,30 @@ Theorem set_existing_moves_refuted :
   exists t t', run_ops strs4 = Ok t /\ mget hid t (VStr [97%N]) = Ok (VInt 1) /\
     tset hid t (VStr [97%N]) (VInt 101) = Ok t' /\
     hshape (hpart t') <> hshape (hpart t).
-Proof. witness. Qed.
+Proof. eexists. eexists. wit_body. Qed.
 
 (* (3) value equality and key equality disagree: two closures that are Equals but hash differently *)
+Definition negs (n : nat) : list op := map (fun i => OSet (VInt (- Z.of_nat i)) (VInt 7)) (seq 1 n).
 Definition hclo (v : value) : N := match v with VClo p _ => p | VInt z => Z.to_N z | _ => 0 end%N.
 Theorem closure_key_refuted :
-  exists t, run hclo empty_table (OSet (VClo 1 0) (VInt 1) :: ints 12) = Ok t /\
+  exists t, run hclo empty_table (OSet (VClo 1 0) (VInt 1) :: negs 12) = Ok t /\
     equals (VClo 1 0) (VClo 2 0) = true /\
     mget hclo t (VClo 1 0) = Ok (VInt 1) /\ mget hclo t (VClo 2 0) = Ok VNil.
-Proof. witness. Qed.
+Proof. eexists. wit_body. Qed.
 
 (* (4) next(t, 0) restarts the array part: the traversal of {10, 20, [0]=5} never ends *)
 Theorem next_zero_refuted :
   exists t, run_ops [OSet (VInt 1) (VInt 10); OSet (VInt 2) (VInt 20); OSet (VInt 0) (VInt 5)] = Ok t /\
     mnext hid t (VInt 2) = Ok (VInt 0, VInt 5, true) /\
     mnext hid t (VInt 0) = Ok (VInt 1, VInt 10, true).
-Proof. witness. Qed.
+Proof. eexists. wit_body. Qed.
 
 (* (5) Reset with an integral float key does not find the integer key in the hash part *)
 Theorem reset_float_refuted :
   exists t t', run_ops [OSet (VInt 6) (VInt 1)] = Ok t /\
     mget hid t (VFlt 4618441417868443648) = Ok (VInt 1) /\      (* 6.0 *)
     treset hid t (VFlt 4618441417868443648) (VInt 3) = Ok (t', false).
-Proof. witness. Qed.
+Proof. eexists. eexists. wit_body. Qed.
 
 (* non-vacuity: a history that exercises all three insertion cases, a migration and a cleanup,
    ends in a state satisfying the executable invariant, with every key retrievable *)
@@ -226,4 +227,4 @@ Example demo_history_ok :
     forallb (fun i => match mget hmod16 t (VInt i) with Ok (VInt v) => Z.eqb v (i + 1000) | _ => false end)
             [100; 132; 101; 117; 20; 36; 52; 53; 37; 1; 2; 3; 4; 200; 216; 232; 5; 6; 7; 8]%Z = true /\
     mget hmod16 t (VInt 116) = Ok VNil.
-Proof. witness. Qed.
+Proof. eexists. wit_body. Qed.
